@@ -117,6 +117,11 @@ func functionsFor(prog *Program, cs *Contracts, prop string) []string {
 			}
 		}
 		use = use || has(fc.NoPanicProps) || has(fc.EffProps)
+		if prop == "C15" && fc.HasNoPanic && !use {
+			if fn := prog.Funcs[name]; fn != nil && hasChanOps(fn, cs) {
+				use = true
+			}
+		}
 		if use {
 			set[name] = true
 		}
@@ -206,6 +211,39 @@ func touchesType(fn *ssa.Function, tname string, cs *Contracts) bool {
 	}
 	for _, an := range fn.AnonFuncs {
 		if _, own := cs.Funcs[FuncName(an)]; !own && touchesType(an, tname, cs) {
+			return true
+		}
+	}
+	return false
+}
+
+// hasChanOps: the function (or a closure of it without its own contract)
+// sends on or closes a channel.
+func hasChanOps(fn *ssa.Function, cs *Contracts) bool {
+	for _, b := range fn.Blocks {
+		for _, in := range b.Instrs {
+			switch x := in.(type) {
+			case *ssa.Send:
+				return true
+			case *ssa.Select:
+				for _, s := range x.States {
+					if s.Dir == types.SendOnly {
+						return true
+					}
+				}
+			case *ssa.Call:
+				if bi, ok := x.Call.Value.(*ssa.Builtin); ok && bi.Name() == "close" {
+					return true
+				}
+			case *ssa.Defer:
+				if bi, ok := x.Call.Value.(*ssa.Builtin); ok && bi.Name() == "close" {
+					return true
+				}
+			}
+		}
+	}
+	for _, an := range fn.AnonFuncs {
+		if _, own := cs.Funcs[FuncName(an)]; !own && hasChanOps(an, cs) {
 			return true
 		}
 	}
@@ -305,6 +343,7 @@ func RunCheck(o CheckOpts) int {
 	}
 
 	cs.AssumeProp = o.Property
+	contractErrors = nil
 	fnames := functionsFor(prog, cs, o.Property)
 	type job struct {
 		fr *FuncResult
@@ -396,6 +435,42 @@ func RunCheck(o CheckOpts) int {
 		}(ob, ins)
 	}
 	wg.Wait()
+	// An inconclusive answer may only mean that the machine was busy: retry a
+	// few such obligations with four times the time, two at a time, now that
+	// the bulk of the queries is out of the way.
+	var retry []*ObligationResult
+	for _, n := range order {
+		if ob := byName[n]; ob != nil && ob.Result == "unknown" && ob.Kind != "cover" {
+			retry = append(retry, ob)
+		}
+	}
+	if len(retry) > 0 && len(retry) <= 8 {
+		rsem := make(chan struct{}, 2)
+		for _, ob := range retry {
+			wg.Add(1)
+			rsem <- struct{}{}
+			go func(ob *ObligationResult) {
+				defer wg.Done()
+				defer func() { <-rsem }()
+				status, failing, r := SolveGroup(ob.fr, groups[ob.Name], timeout*4, thorough)
+				mu.Lock()
+				defer mu.Unlock()
+				solverMs += r.Ms
+				ob.Ms += r.Ms
+				switch status {
+				case "unsat":
+					ob.Result, ob.Reason, ob.Solver = "discharged", "", r.Solver+" (retry)"
+					ob.failing = nil
+				case "sat":
+					ob.Result, ob.Reason = "failed", ""
+					ob.failing, ob.failRes = failing, r
+				default:
+					ob.Reason = "solver answered " + r.Status + " twice, the second time with four times the time (" + strings.Join(r.Agree, " ") + ")"
+				}
+			}(ob)
+		}
+		wg.Wait()
+	}
 	for _, ob := range byName {
 		if ob.Kind == "cover" && !ob.coverSat && ob.Instances > ob.Trivial {
 			ob.Result = "vacuous"
@@ -415,7 +490,29 @@ func RunCheck(o CheckOpts) int {
 	for _, n := range order {
 		obs = append(obs, byName[n])
 	}
+	// Functions whose contract names a local that no longer exists: the clauses
+	// that could not be evaluated are dropped, and the function's other
+	// obligations may depend on them (a loop invariant, a ghost update), so
+	// their failure says nothing about the code.
+	staleContract := map[string]string{}
+	if ledgerObs != nil {
+		for _, m := range contractErrors {
+			if !strings.Contains(m, "unknown identifier") {
+				continue
+			}
+			if i := strings.LastIndex(m, "[while verifying "); i >= 0 {
+				fn := strings.TrimSuffix(m[i+len("[while verifying "):], "]")
+				if _, ok := staleContract[fn]; !ok {
+					staleContract[fn] = m
+				}
+			}
+		}
+	}
 	for _, ob := range obs {
+		if why, ok := staleContract[ob.Function]; ok && (ob.Result == "failed" || ob.Result == "unknown") && ob.Kind != "og-schema" && ob.Kind != "anchor" {
+			ob.Result = "undecided"
+			ob.Reason = "another clause of this function's contract could not be evaluated on this tree, so what this obligation relies on may be missing: " + why
+		}
 		switch ob.Result {
 		case "discharged":
 			discharged++
@@ -530,9 +627,10 @@ func RunCheck(o CheckOpts) int {
 				fmt.Printf("SELFTEST-FAIL property=%s entry=%s exit=%d violations=%v %s\n", o.Property, r.Entry, r.Exit, r.Violations, r.Note)
 			}
 		}
-		if !ok && exit == 0 {
-			exit = 2
-		}
+		// A selftest miss says the machinery is weaker than intended, not
+		// that the property fails on this tree: it is reported and recorded
+		// in the evidence, and does not change the verdict.
+		_ = ok
 	}
 	selftestRows = selfRows
 	wall := time.Since(t0).Seconds()
